@@ -11,7 +11,8 @@ for mp in sorted(glob.glob(os.path.join(HERE, "seeded", "*", "meta.json"))):
     notes = os.path.join(os.path.dirname(mp), "notes.md")
     what = ""
     if os.path.exists(notes):
-        txt = [l.strip() for l in open(notes).read().splitlines() if l.strip() and not l.startswith("#")]
+        txt = [l.strip() for l in open(notes).read().splitlines()
+               if l.strip() and not l.startswith("#") and not l.startswith("PROPERTIES:")]
         what = (txt[0] if txt else "")[:170]
     caught = [f"{p} ({c['first_violations'][0].split(':')[0] if c['first_violations'] else 'exit 1'})"
               for p, c in m.get("checks", {}).items() if c["exit"] == 1]
